@@ -126,11 +126,11 @@ struct string {
 #endif
   string substr(size_t pos,size_t len=(size_t)-1)const{ __CPROVER_assert(pos<=(size_t)n,"ministl: substr pos > size (throws)"); string r; for(size_t i=0;i<MINISTL_STR_CAP;i++) if(i>=pos && i<(size_t)n && i-pos<len) r.__push(b[i]); r.trunc=trunc; return r; }
   template<class It> void insert(char*at,It f,It l){ string r; int a=(int)(at-b); long m=l-f; for(int i=0;i<MINISTL_STR_CAP;i++) if(i<a) r.__push(b[i]); for(long q=0;q<MINISTL_STR_CAP;q++) if(q<m) r.__push(f[q]); if(m>=MINISTL_STR_CAP) r.trunc=1; for(int i=0;i<MINISTL_STR_CAP;i++) if(i>=a && i<n) r.__push(b[i]); if(trunc) r.trunc=1; *this=r; }
-  bool __eq(const string&o)const{ __CPROVER_assert(!trunc&&!o.trunc,"ministl: comparing truncated string (model bound)"); bool e=(n==o.n); for(int i=0;i<MINISTL_STR_CAP;i++) e = e & (b[i]==o.b[i]); return e; }
+  bool __eq(const string&o)const{ (__CPROVER_assert(!trunc&&!o.trunc,"ministl: comparing truncated string (model bound)"), __CPROVER_assume(!trunc&&!o.trunc)); bool e=(n==o.n); for(int i=0;i<MINISTL_STR_CAP;i++) e = e & (b[i]==o.b[i]); return e; }
   bool operator==(const string&o)const{ return __eq(o); }
   bool operator!=(const string&o)const{ return !__eq(o); }
   // canonical form (unused bytes are 0, no embedded NUL) makes whole-buffer comparison equal to lexicographic comparison
-  bool operator<(const string&o)const{ __CPROVER_assert(!trunc&&!o.trunc,"ministl: comparing truncated string (model bound)"); bool lt=false, dec=false; for(int i=0;i<MINISTL_STR_CAP;i++){ unsigned char x=b[i],y=o.b[i]; bool d=(x!=y)&!dec; lt = d ? (x<y) : lt; dec = dec|d; } return lt; }
+  bool operator<(const string&o)const{ (__CPROVER_assert(!trunc&&!o.trunc,"ministl: comparing truncated string (model bound)"), __CPROVER_assume(!trunc&&!o.trunc)); bool lt=false, dec=false; for(int i=0;i<MINISTL_STR_CAP;i++){ unsigned char x=b[i],y=o.b[i]; bool d=(x!=y)&!dec; lt = d ? (x<y) : lt; dec = dec|d; } return lt; }
 };
 inline bool operator==(const string&a,const char*s){ return a==string(s); }
 inline bool operator!=(const string&a,const char*s){ return !(a==string(s)); }
@@ -150,23 +150,25 @@ template<class T> struct vector : __flat<T,__cap<T>::v> {
   using F::n; using F::u; using F::__at;
   typedef __iter<F,T> iterator; typedef __iter<const F,const T> const_iterator; typedef size_t size_type; typedef T value_type;
   vector(){}
-  vector(size_t k,const T&x){ __CPROVER_assert(k<=(size_t)VCAP,"ministl: vector capacity (model bound)"); for(size_t i=0;i<(size_t)VCAP;i++) if(i<k){ new(&u.d[i]) T(x); n++; } }
+  vector(size_t k,const T&x){ (__CPROVER_assert(k<=(size_t)VCAP,"ministl: vector capacity (model bound)"), __CPROVER_assume(k<=(size_t)VCAP)); for(size_t i=0;i<(size_t)VCAP;i++) if(i<k){ new(&u.d[i]) T(x); n++; } }
   vector(initializer_list<T> l){ for(const T*p=l.begin();p!=l.end();++p) push_back(*p); }
-  void push_back(const T&x){ __CPROVER_assert(n<VCAP,"ministl: vector capacity (model bound)"); new(&__at(n)) T(x); n++; }
+  template<class It> requires requires(It i, It j){ *i; ++i; i!=j; } vector(It a, It b){ for(int i=0;i<=VCAP;i++) if(a!=b){ push_back(*a); ++a; } }   // iterator-range constructor
+  void push_back(const T&x){ (__CPROVER_assert(n<VCAP,"ministl: vector capacity (model bound)"), __CPROVER_assume(n<VCAP)); new(&__at(n)) T(x); n++; }
   void pop_back(){ __CPROVER_assert(n>0,"ministl: pop_back on empty vector (UB)"); n--; __at(n).~T(); }
   void clear(){ this->__clear(); }
-  void resize(size_t k){ __CPROVER_assert(k<=(size_t)VCAP,"ministl: vector capacity (model bound)"); for(int i=VCAP-1;i>=0;i--) if((size_t)i>=k && i<n) u.d[i].~T(); for(int i=0;i<VCAP;i++) if(i>=n && (size_t)i<k) new(&u.d[i]) T(); n=(int)k; }
-  void resize(size_t k,const T&x){ __CPROVER_assert(k<=(size_t)VCAP,"ministl: vector capacity (model bound)"); for(int i=VCAP-1;i>=0;i--) if((size_t)i>=k && i<n) u.d[i].~T(); for(int i=0;i<VCAP;i++) if(i>=n && (size_t)i<k) new(&u.d[i]) T(x); n=(int)k; }
+  void resize(size_t k){ (__CPROVER_assert(k<=(size_t)VCAP,"ministl: vector capacity (model bound)"), __CPROVER_assume(k<=(size_t)VCAP)); for(int i=VCAP-1;i>=0;i--) if((size_t)i>=k && i<n) u.d[i].~T(); for(int i=0;i<VCAP;i++) if(i>=n && (size_t)i<k) new(&u.d[i]) T(); n=(int)k; }
+  void resize(size_t k,const T&x){ (__CPROVER_assert(k<=(size_t)VCAP,"ministl: vector capacity (model bound)"), __CPROVER_assume(k<=(size_t)VCAP)); for(int i=VCAP-1;i>=0;i--) if((size_t)i>=k && i<n) u.d[i].~T(); for(int i=0;i<VCAP;i++) if(i>=n && (size_t)i<k) new(&u.d[i]) T(x); n=(int)k; }
   T& back(){ __CPROVER_assert(n>0,"ministl: back() on empty vector (UB)"); return __at(n-1); }
   const T& back()const{ __CPROVER_assert(n>0,"ministl: back() on empty vector (UB)"); return __at(n-1); }
   T& front(){ __CPROVER_assert(n>0,"ministl: front() on empty vector (UB)"); return u.d[0]; }
   T& at(size_t i){ __CPROVER_assert(i<(size_t)n,"ministl: vector::at out of range (throws)"); return __at((long)i); }
   template<class... A> T& emplace_back(A&&... a){ push_back(T(static_cast<A&&>(a)...)); return __at(n-1); }
-  void reserve(size_t k){ __CPROVER_assert(k<=(size_t)VCAP,"ministl: vector capacity (model bound)"); } size_t capacity()const{ return VCAP; } void shrink_to_fit(){}
+  void reserve(size_t k){ (__CPROVER_assert(k<=(size_t)VCAP,"ministl: vector capacity (model bound)"), __CPROVER_assume(k<=(size_t)VCAP)); } size_t capacity()const{ return VCAP; } void shrink_to_fit(){}
   void assign(size_t k,const T&x){ clear(); resize(k,x); }
   iterator insert(iterator at,const T&x){ const T*p=&x; insert(at,p,p+1); return at; }
   iterator erase(iterator at){ erase(at,at+1); return at; }
   const_iterator cbegin()const{ return begin(); } const_iterator cend()const{ return end(); }
+  typedef __riter<F,T> reverse_iterator; reverse_iterator rbegin(){ return reverse_iterator(this,n); } reverse_iterator rend(){ return reverse_iterator(this,0); }
   bool operator==(const vector&o)const{ bool e=n==o.n; for(int i=0;i<VCAP;i++) if(i<n&&i<o.n) e = e && (u.d[i]==o.u.d[i]); return e; }
   T& operator[](size_t i){ __CPROVER_assert(i<(size_t)n,"ministl: vector index out of range (UB)"); return __at((long)i); }
   const T& operator[](size_t i)const{ __CPROVER_assert(i<(size_t)n,"ministl: vector index out of range (UB)"); return __at((long)i); }
@@ -174,7 +176,7 @@ template<class T> struct vector : __flat<T,__cap<T>::v> {
   iterator begin(){ return iterator(this,0); } iterator end(){ return iterator(this,n); }
   const_iterator begin()const{ return const_iterator(this,0); } const_iterator end()const{ return const_iterator(this,n); }
   // insert [f,l) before at: shift the tail up by m (highest index first), then copy the new elements in
-  template<class It> void insert(iterator at,It f,It l){ int a=at.i; int m=(int)(l-f); __CPROVER_assert(a>=0&&a<=n,"ministl: insert position outside vector (UB)"); __CPROVER_assert(m>=0&&n+m<=VCAP,"ministl: vector capacity (model bound)");
+  template<class It> void insert(iterator at,It f,It l){ int a=at.i; int m=(int)(l-f); __CPROVER_assert(a>=0&&a<=n,"ministl: insert position outside vector (UB)"); (__CPROVER_assert(m>=0&&n+m<=VCAP,"ministl: vector capacity (model bound)"), __CPROVER_assume(m>=0&&n+m<=VCAP));
     for(int j=VCAP-1;j>=0;j--) if(m>0 && j>=a+m && j<n+m){ new(&u.d[j]) T(__at(j-m)); __at(j-m).~T(); }
     for(int q=0;q<VCAP;q++) if(q<m) new(&__at(a+q)) T(f[q]);
     n+=m; }
@@ -211,7 +213,7 @@ template<class K,class V> struct map : __flat<pair<K,V>,__mcap<K,V>::v> {
   size_t erase(const K&k){ if(!__has(k)) return 0; erase(iterator(this,lower(k))); return 1; }
   template<class V2> void emplace(const K&k,const V2&v){ insert(slot(k,V(v))); }
   template<class V2> void insert_or_assign(const K&k,const V2&v){ (*this)[k]=V(v); }
-  void __ins(int i,const K&k,const V&v){ __CPROVER_assert(n<MCAP,"ministl: map capacity (model bound)"); for(int j=MCAP-1;j>0;j--) if(j<=n && j>i){ new(&u.d[j]) slot(u.d[j-1]); u.d[j-1].~slot(); } new(&__at(i)) slot(k,v); n++; }
+  void __ins(int i,const K&k,const V&v){ (__CPROVER_assert(n<MCAP,"ministl: map capacity (model bound)"), __CPROVER_assume(n<MCAP)); for(int j=MCAP-1;j>0;j--) if(j<=n && j>i){ new(&u.d[j]) slot(u.d[j-1]); u.d[j-1].~slot(); } new(&__at(i)) slot(k,v); n++; }
   V& operator[](const K&k){ int i=lower(k); if(!__has(k)) __ins(i,k,V()); return __at(i).second; }
   void insert(const slot&p){ if(!__has(p.first)) __ins(lower(p.first),p.first,p.second); }
   template<class A2,class B2> void insert(const pair<A2,B2>&p){ insert(slot(K(p.first),V(p.second))); }
@@ -232,7 +234,7 @@ template<class K> struct set : __flat<K,__scap<K>::v> {
   bool contains(const K&k)const{ return __has(k); } size_t count(const K&k)const{ return __has(k)?1:0; } bool empty()const{ return n==0; }
   iterator find(const K&k)const{ return __has(k) ? iterator(this,lower(k)) : end(); }
   void emplace(const K&k){ insert(k); }
-  void insert(const K&k){ if(__has(k)) return; int i=lower(k); __CPROVER_assert(n<SCAP,"ministl: set capacity (model bound)"); for(int j=SCAP-1;j>0;j--) if(j<=n && j>i){ new(&u.d[j]) K(u.d[j-1]); u.d[j-1].~K(); } new(&__at(i)) K(k); n++; }
+  void insert(const K&k){ if(__has(k)) return; int i=lower(k); (__CPROVER_assert(n<SCAP,"ministl: set capacity (model bound)"), __CPROVER_assume(n<SCAP)); for(int j=SCAP-1;j>0;j--) if(j<=n && j>i){ new(&u.d[j]) K(u.d[j-1]); u.d[j-1].~K(); } new(&__at(i)) K(k); n++; }
   size_t erase(const K&k){ if(!__has(k)) return 0; int i=lower(k); __at(i).~K(); for(int j=0;j+1<SCAP;j++) if(j>=i && j+1<n){ new(&u.d[j]) K(u.d[j+1]); u.d[j+1].~K(); } n--; return 1; }
   size_t size()const{return n;}
 };
@@ -275,6 +277,10 @@ extern ostream cout, cerr;
 // algorithms over model iterators: constant trip count = capacity of the underlying container
 template<class It,class F> F for_each(It a,It b,F f){ for(int k=0;k<It::ICAP;k++) if(a!=b){ f(*a); ++a; } return f; }
 template<class It,class C> It min_element(It a,It b,C c){ if(a==b) return b; It m=a; ++a; for(int k=0;k<It::ICAP;k++) if(a!=b){ if(c(*a,*m)) m=a; ++a; } return m; }
+// sort: bubble passes with constant trip counts (stable; ICAP rounds of ICAP-1 adjacent comparisons), elements exchanged by copy
+template<class It,class C> void stable_sort(It a,It b,C c){ for(int r=0;r<It::ICAP;r++){ It p=a; for(int k=0;k+1<It::ICAP;k++) if(p!=b){ It q=p; ++q; if(q!=b){ if(c(*q,*p)){ auto t=*p; *p=*q; *q=t; } } ++p; } } }
+template<class It,class C> void sort(It a,It b,C c){ stable_sort(a,b,c); }
+template<class It> void sort(It a,It b){ stable_sort(a,b,[](const auto&x,const auto&y){ return x<y; }); }
 template<class It,class C> It max_element(It a,It b,C c){ if(a==b) return b; It m=a; ++a; for(int k=0;k<It::ICAP;k++) if(a!=b){ if(c(*m,*a)) m=a; ++a; } return m; }
 template<class It,class T> It find(It a,It b,const T&x){ It r=b; bool f=false; for(int k=0;k<It::ICAP;k++) if(a!=b){ if(!f && *a==x){ r=a; f=true; } ++a; } return r; }
 template<class It,class P> It find_if(It a,It b,P p){ It r=b; bool f=false; for(int k=0;k<It::ICAP;k++) if(a!=b){ if(!f && p(*a)){ r=a; f=true; } ++a; } return r; }
